@@ -106,14 +106,27 @@ def cmd_gen():
         for m in ms:
             m['props'] = anc[rel]
         allm += ms
+    # keep the test verdicts of an earlier run for files whose contents did not change
+    prev = {}
+    if os.path.exists(OUT):
+        for m in json.load(open(OUT)):
+            if 'tests' in m and 'sha' in m:
+                prev[(m['file'], m['sha'], m['start'], m['end'], m['new'])] = m['tests']
     for i, m in enumerate(allm):
         m['id'] = i
+        m['sha'] = hashlib.sha1(open(os.path.join(REPO, m['file']), 'rb').read()).hexdigest()
+        t = prev.get((m['file'], m['sha'], m['start'], m['end'], m['new']))
+        if t:
+            m['tests'] = t
     json.dump(allm, open(OUT, 'w'), indent=0)
     print(len(allm), 'mutants over', len({m['file'] for m in allm}), 'files')
 
 
 def worktree(k):
     wt = os.path.join(WORK, 'wt%d' % k)
+    head = subprocess.run('git -C %s rev-parse HEAD' % REPO, shell=True, capture_output=True, text=True).stdout.strip()
+    if os.path.exists(wt) and subprocess.run('git -C %s rev-parse HEAD' % wt, shell=True, capture_output=True, text=True).stdout.strip() != head:
+        subprocess.run('git -C %s worktree remove --force %s' % (REPO, wt), shell=True)
     if not os.path.exists(wt):
         subprocess.run('git -C %s worktree add -q --detach %s HEAD' % (REPO, wt), shell=True, check=True)
     return wt
